@@ -627,7 +627,10 @@ def check_C03(er, cfg_terms=None):
                             if el is not None:
                                 expected.append(el)
                     elif which == 'apply':
-                        expected.extend(rest[:1])
+                        # `f.apply(t, arr)` with a run-time array: the call arguments are the ELEMENTS of arr; a hook can only
+                        # list them by spreading it
+                        if rest:
+                            expected.append(eos(rest[0]['expr'], spread={'_t': 'Span', 'lo': {'0': 0}, 'hi': {'0': 0}}))
                     else:
                         expected.extend(rest)
                     if which == 'apply' and len(rest) >= 2 and len(A) > len(expected):
